@@ -5,7 +5,7 @@
 From Coq Require Import ZArith List Bool Arith.
 Import ListNotations.
 From OvldV Require Import Model.Order Model.Ty Model.Codec Model.Resolve Spec.Dispatch
-  Proofs.ResolveCands Proofs.ResolveStatic Proofs.ResolveTotal Proofs.ResolveChain Gen.Leaf Proofs.LeafAgree.
+  Proofs.ResolveCands Proofs.ResolveStatic Proofs.ResolveTotal Proofs.ResolveChain Gen.Leaf Proofs.LeafCand.
 
 Definition Refl (sub : nat -> nat -> bool) := forall c, sub c c = true.
 Definition Antisym (sub : nat -> nat -> bool) := forall c d, sub c d = true -> sub d c = true -> c = d.
